@@ -37,6 +37,7 @@ func VH_C18_send_table() {
 	a.c.Policies = pol
 	st := msgState(vChoose("msgState", 3))
 	a.c.msgState = st
+	vhAnyAKEState(a.c)
 	text := vBytes("text", 2)
 	vhNoNUL(text)
 	vAssume(vAll(text[0] != '?', text[0] != ' ', text[0] != '\t'))
@@ -141,9 +142,13 @@ func VH_C18_resend() {
 	want := append([]byte("[resent] "), t2...)
 	vAssert("resent-is-last-text-marked", vAll(d3 == nil, len(p3) == len(want), vBytesEq(p3, want)))
 	vAssert("resend-event", a.ev.hasMsg(MessageEventMessageResent))
-	// nothing is left to be sent again
+	// nothing is left to be sent again: not now, and not after another error report
+	vAssert("nothing-retained-after-resend", len(a.c.resend.messages.m) == 0)
 	out2, _ := a.c.maybeRetransmit()
 	vAssert("resent-only-once", len(out2) == 0)
+	_, _, e5 := a.c.Receive([]byte("?OTR Error: unreadable again"))
+	out3, _ := a.c.maybeRetransmit()
+	vAssert("resent-only-once-after-second-error", vAll(e5 == nil, len(out3) == 0))
 	vReach("end")
 }
 
@@ -237,7 +242,23 @@ func VH_C08_ake() {
 	c.ake.ourPublicValue = vhPub(exp)
 	copy(c.ake.r[:], rkey)
 	c.ake.encryptedGx = vBytes("egx", 12)
-	switch vChoose("step", 3) {
+	switch vChoose("step", 4) {
+	case 3: // abandoned: the peer's DH-Commit wins the commit collision
+		c.ake.state = authStateAwaitingDHKey{}
+		// the peer's commitment hash is the largest possible one, so ours is the lower
+		// hash on every run (also natively, where the real SHA-256 decides)
+		high := make([]byte, 32)
+		for i := range high {
+			high[i] = 0xff
+		}
+		body := AppendData(AppendData(nil, vBytes("theiregx", 8)), high)
+		_, err := c.processAKE(msgTypeDHCommit, body)
+		vAssume(err == nil)
+		if c.ake.secretExponent == nil || !vBytesEq(c.ake.secretExponent, val) {
+			// we gave up our own exchange and answered with a DH-Key message
+			vAssume(c.ake.secretExponent == nil || !vBytesEq(c.ake.secretExponent, val))
+			vAssert("O2-collision-loser-exponent-zeroed", vhIsZero(exp))
+		}
 	case 0: // abandoned: End() while the exchange is in progress
 		_, err := c.End()
 		vAssume(err == nil)
